@@ -40,12 +40,12 @@ claim('C04',
       'DESIGN.md section 5 C04, section 6 D6')
 
 claim('C05',
-      'Pollard clause proved at full strength (Props/C05.lean pollard_flag): for all distinct odd primes, every product m and gcd bound, if p-1 and q-1 share g >= bound with g | m and (p-1) | (n-1)m '
-      'then Pollardpm1 flags n, with factors [p,q] unless 2^((n-1)m) = 1 mod q as well (then flagged without factors). Lattice families: fraction_post — if the LLL basis contains a row whose value '
+      'Pollard clause: for all distinct odd primes, every product m and gcd bound, if p-1 and q-1 share g >= bound with g | m and (p-1) | (n-1)m '
+      'then Pollardpm1 flags n, with factors [p,q] unless 2^((n-1)m) = 1 mod q as well — then flagged without factors, in particular when (q-1) | (n-1)m (Props/C05.lean pollard_flag, stated for an ARBITRARY m). Which g divide the product the constructor really builds is characterised exactly for the documented exponents (Props/C05Pollard.lean defaultM_dvd_iff: every prime power r^k of g has r^k <= 2^64 for r <= 863, k = 1 for 863 < r < 2^20; userM_dvd_iff; bound 0 is the default product), giving pollard_default_flag, pollard_default_flag_of_smooth, pollard_default_both_smooth and pollard_user_flag. The float int(math.log(bound, p)) is an oracle compared with the documented exponents on every run. '
+      'PROPERTY-TEXT LIMITATION: "share a 2^20-smooth factor of at least 2^60" is not sufficient: g = 1009^7 is 2^20-smooth and >= 2^60, but the default product contains 1009 only once and Pollardpm1 returns (False, []) for n = (24g+1)(2*1048721*g+1) (C05Pollard.literal_text_fails with Pratt-certified primes, smooth_not_enough; reproduced on the implementation every run); the clause is read as "share a factor of at least 2^60 that divides the Pollard product". Lattice families: fraction_post — if the LLL basis contains a row whose value '
       'is a multiple of p and not of q, CheckFraction returns both primes, for every other content of the basis; soundness for every basis is C01. Check-level models of CheckBitPatterns / '
       'CheckPermutedBitPatterns / CheckPollardpm1 / CheckLowHammingWeight / CheckContinuedFractions (Model/RsaChecks.lean: which denominators are tried, in which order, first success wins, '
-      'UNKNOWN severity when unfactored) are tied to the real Check objects on protobuf keys by correspondence with recorded LLL answers. NOT claimed: that LLL finds the planted vector, that the '
-      'best-first Hamming-weight search succeeds for weight <= 32, or the continued-fraction heuristic (oracle / heuristic success).',
+      'UNKNOWN severity when unfactored) are tied to the real Check objects on protobuf keys by correspondence with recorded LLL answers. NOT claimed: that LLL finds the planted vector (oracle; bit-pattern and permuted-limb clauses); that the best-first Hamming-weight search succeeds for weight <= 32 (heuristic; no theorem beyond soundness — evaluated on the implementation with default parameters every run); that a flagged two-pattern key is also factored.',
       'Trusted: Lean kernel, correspondence harness, fpylll as oracle (answers recorded at rsa_util.lll.reduce). powMod is proved equal to b^e mod m.',
       'Lean 4 proof (Pollard clause; completeness given the oracle row) + differential correspondence with recorded oracle answers',
       'DESIGN.md section 5 C05')
@@ -508,7 +508,9 @@ _add('C04', 'The equal-high-and-low-bits clause is now a theorem too (Props/C04H
 _add('C05', 'The PRE half of the lattice sandwich is proved (Props/C05Pre.lean): for p = (a*w + c)/d the vector (c*x, -a*x, c*e) is an explicit integer combination of the rows of the lattice CheckFraction builds, with entry bounds 2|c|d, 2|a|d, |c|(|c|m + d - 1) '
             '(fraction_pre, fraction_vector_small = the docstring\'s derivation), its value is x*d*p (fraction_vector_value), so any basis containing +- that row yields both primes (fraction_sandwich); a w-bit word repeated k times apart from t low bits has exactly this form with '
             'd = 2^w - 1 and |c| < 2^(w+t) (repetition_is_fraction, repetition_sandwich); the denominators tried by CheckBitPatterns / CheckPermutedBitPatterns are exactly the documented lists, first success wins (bitpatterns_enum, permuted_enum, tried_first_success). '
-            'Only "LLL returns the planted short vector" and the Hamming-weight heuristic remain oracle assumptions.')
+            'Permuted limbs (Props/C05Permuted.lean): a ps-bit word (ps odd) written from the top over 2M ws-bit limbs with adjacent limbs swapped, plus a deviation delta, satisfies D*p = a*2^h + c for the check\'s denominator D = (2^ps-1)(2^(ps*ws)+1)/(2^ws+1), with explicit a, c and |A_s| < 2(2^ws+1)D (permuted_is_fraction, permuted_sandwich). Cut, non-aligned repetitions of any word size are covered by cut_repetition_is_fraction / cut_repetition_sandwich. '
+            'The continued-fraction clause is PROVED without oracle (Props/C05Cf.lean cf_clause_default): both primes odd, each a word of <= 64 bits cut to L >= 512 bits plus a deviation < 2^32, then CheckContinuedFractions() flags the key (via CfLarge.euclid_large_quot: a rational within E/(bd) of a/b with (K+3)Ed <= b+E forces a partial quotient >= K). Unproved links that remain: (1) LLL returns +- the planted vector; (2) the low-Hamming-weight search. '
+            'Completeness clauses are evaluated on the implementation for planted members of every family on every run (cut repetitions for every default w, swapped limbs, two patterned primes, exact Hamming weights 16 / 32, Pollard families with prime powers inside / at / beyond the exponent limits); a miss inside the property region is a violation (measured before gating: 15783 bit-pattern keys 0 misses, 899/899 permuted, 2881/2881 two-pattern flagged, 136/136 low-weight flagged); permuted limbs with bitlen/10 < bits(D) <= bitlen/8 are missed in 42 of 129 measured keys (outside the property).')
 _add('C11', 'Primality of all 18 curve constants (field primes and group orders of the nine curves) is no longer a hypothesis: kernel-checked Pratt certificates regenerated with the constants (Props/C11Primes.lean, curve_primes_certified; factorisations cached in harness/consts/pratt_cache.json are hints, the kernel re-checks every certificate), '
             'hence hypothesis-free: G has order exactly n and the curve is elliptic over the field ZMod p for every named curve (generator_order_certified, curves_elliptic_certified).')
 _add('C16', 'END TO END: the verdict oracle is instantiated by the per-check models for all three entry points (Props/C16RsaAll.lean, Props/C16EcAll.lean): checkAllRSA_entries / checkAllEC_entries / checkAllECDSA_entries (exactly the registry entries in registry order with the documented severities, weak iff some entry positive, return iff some artefact weak), '
@@ -577,3 +579,7 @@ _add('C16', 'Props/C16EcAllCert.lean, Props/C16RsaAllNV.lean: the end-to-end EC 
 _add('C17', 'EC single checks (Props/C17Ec.lean, 14 theorems; review finding F12): CheckValidECKey / CheckWeakCurve verdicts are functions of the key (checkValidECKey_local, checkWeakCurve_local, end to end checkAllEC_individual_entries_local). CheckWeakECPrivateKey is NOT key-local (weakKey_verdict_depends_on_batch: kernel witness; real run: known finding D22); proved instead: soundness whatever the neighbours (weakKey_sound_any_batch) and the documented families are found in every batch from every reachable state (weakKey_guaranteed_any_context). '
             'CheckECKeySmallDifference: the boolean verdicts are exactly characterised (smallDiff_flag_iff: flagged iff another key on the same curve differs by k*G with 0 < |k| < V, V the table range) and invariant under permutation, duplication and healthy addition (smallDiff_flags_perm, smallDiff_flags_same_set, smallDiff_add_healthy; keys on-curve and reduced, SDHyp); the RECORDED relation is order-dependent (last hit wins: smallDiff_evidence_depends_on_order, reproduced on the real code) and earlier work can only add flags (smallDiff_verdict_depends_on_history). '
             'dl_history_monotone covers BatchDL logs in [0,n) of reduced on-curve points only; single_check_alone_eq_batch is the bookkeeping half and assumes a per-artefact verdict; checkAllRSA_single_independent assumes equal singleton state (orc.toRsaGlobals). KNOWN FINDING D22 (C17, recorded, patch fixes/D22-extendedbatchdl-range.diff proposed, not applied): CheckWeakECPrivateKey flags a key whose private key lies just beyond the documented range (e.g. d = 2^32 + 2000000 on secp256r1) in a batch of 9 keys but not alone — the table size, hence the range covered by luck, grows with the batch.')
+
+_add('C12', 'Props/C12Errors.lean (29 theorems; review finding F11): for every modelled test the exact set of arguments for which it raises, and which exception (frequency, runs, block frequency, longest runs, large rank, Serial / ApEn incl. defaults n < 2 / n < 3, LinearComplexity and Scatter relative to the BM oracle, UniversalImpl / Universal, NonOverlappingTemplateMatching as a function incl. the default ladder, OverlappingTemplateMatching, BinaryMatrixRank for every shape, RandomWalk). '
+            'Three exceptions are decided by a floating-point underflow and are explicit oracles of the model (Model/NistFloat.lean), recorded from the real run and quantified over in the theorems: ChiSquare rejecting the float RankDistribution (e.g. shapes (8,300,5), (40,40,33), (2,1100,1)) or the float overlapping-template matrix power (m >= 1071) with ValueError, and RandomWalk dividing by 0.0 for max_cnt >= 1075 when J >= 500. With a clean oracle the float-aware functions equal the exact ones (clean_oracle); the oracle never alters a result, it can only turn it into an error. '
+            'WHEN the floats underflow is not proved (oracle + generated shapes on both sides of each boundary). This is the documented ChiSquare validation ("all expected probabilities should be strictly larger than 0.0"; the test is statistically void there) and not counted as a violation of C12. Preconditions: n < 2^1023 (Frequency(0, 2**1100) raises OverflowError); optional parameters >= 1 (BinaryMatrixRank with k = 0 and r = c >= 31 returns nan: observation, patch fixes/rank-k-zero-nan.diff proposed, not applied).')
